@@ -126,3 +126,45 @@ pub fn n_threads() -> usize {
         .unwrap_or(4);
     env_u64("VERIF_THREADS", n as u64) as usize
 }
+
+
+/// resident set size of this process in bytes (0 if /proc is unreadable)
+pub fn rss_bytes() -> u64 {
+    std::fs::read_to_string("/proc/self/statm")
+        .ok()
+        .and_then(|s| s.split_whitespace().nth(1).and_then(|x| x.parse::<u64>().ok()))
+        .map_or(0, |pages| pages * 4096)
+}
+
+static LAST_JOB: std::sync::Mutex<String> = std::sync::Mutex::new(String::new());
+
+/// Engines without per-execution slots publish a coarse description of the job in progress.
+pub fn publish_job(desc: String) {
+    if let Ok(mut g) = LAST_JOB.lock() {
+        *g = desc;
+    }
+}
+
+/// Waiting made visible, memory edition: a subject that loops while allocating would get the
+/// whole harness killed by the kernel, which is no verdict at all. A watchdog thread ends the run
+/// with a violation of the property under check instead (the checks themselves stay below 1 GB).
+pub fn start_rss_watchdog() {
+    let cap = env_u64("VERIF_RSS_GB", 12) * (1 << 30);
+    std::thread::spawn(move || loop {
+        std::thread::sleep(std::time::Duration::from_millis(100));
+        if rss_bytes() > cap {
+            let prop = std::env::var("BVERIF_PROPERTY").unwrap_or_else(|_| "C00".into());
+            let job = LAST_JOB.lock().map(|g| g.clone()).unwrap_or_default();
+            let dir = crate::report::replay_dir();
+            let _ = std::fs::create_dir_all(&dir);
+            let path = format!("{}/{}-hang-memory-exhausted.json", dir, prop);
+            let v = serde_json::json!({"property": prop, "signature": "hang/memory-exhausted",
+                "observed": format!("the process grew beyond {} GB while executing the library on a valid history (a loop in the library allocates without terminating)", cap >> 30),
+                "job_in_progress": job});
+            let _ = std::fs::write(&path, serde_json::to_string_pretty(&v).unwrap());
+            println!("VIOLATION property={} replay={}", prop, path);
+            crate::ops::cleanup_scratch();
+            std::process::exit(1);
+        }
+    });
+}
